@@ -75,7 +75,7 @@ def generate(rng, tier, idx):
     if rng.random() < 0.3:
         # catalogue-style designations: mixed case, signs, dots, one far longer than the 30 characters of Source.to_ascii
         pool_ = ['J0534-0523', 'IRAS_05327+3404', 'Sz-19b', 'src.12', 'HD_37903', 'V*_FU_Ori', '2MASS_J05352184-0546085_epoch2_reprocessed',
-                 'x', 'NGC2264-IRS1', 'obj_%d' % rng.randrange(1000), 'Ab', 'aB']
+                 'x', 'NGC2264-IRS1', 'obj_%d' % rng.randrange(1000), 'Ab', 'aB', '\u03b7_Car', 'LkH\u03b1_101']
         rng.shuffle(pool_)
         for i_, s_ in enumerate(sources):
             s_['name'] = pool_[i_] if i_ < len(pool_) else '%s_%d' % (pool_[i_ % len(pool_)], i_)
